@@ -460,7 +460,7 @@ Section Tune.
             | Raise e => Raise e
             | Ok kept => if Fitness.dominates_loop false iv ov then Ok kept else Ok ((tg, MVec ov) :: kept)
             end
-        | _ => Raise TypeError                        (* enumerate(float) *)
+        | _ => multi_filter iv rest                   (* objective invalid on this graph: skipped *)
         end
     end.
 
